@@ -26,7 +26,7 @@ RULES = [
     Rule('C18.R5', 'every failing path of the four loaders leaves a non-empty error text', 4),
     Rule('C18.R6', 'a callback slot and its user-data slot are re-wired from a matching pair', 12),
     Rule('C18.R11', 'what the VGM dumper overrides while it is the emulator (chip count, stop-at-loop-end) is re-applied from the setup when it no longer is', 4),
-    Rule('C18.R10', 'a setter withholds its live store under the setup lock only for the fields the locked formats force', 3),
+    Rule('C18.R10', 'a setter withholds its live store under the setup lock only for the fields the locked formats force', 2),
     Rule('C18.R9', 'every track / channel number handed to the sequencer by a setter is validated there and a refusal is reported', 3),
     Rule('C18.R8', 'every chip wrapper hands the requested chip family on to its base (OPN2::reset reads the applied family back from the chip)', 6),
     Rule('C18.R7', 'accepted setting values lie in the documented range; the AUTO volume model resolves to the bank default wherever the live model is set from the setup', 3),
